@@ -146,6 +146,42 @@ func reasmSpec(id string, which reasm.Which, snapshot bool, rule string, assumpt
 		}
 		c.Add("small_scope_histories", small)
 		c.Add("small_scope_max_len", int64(smallLen))
+		// jump histories (enumerated): an event T is delivered at once (complete on arrival) and is gone; then two
+		// events hi > lo arrive in that order whose numbers lie on either side of T + (2^24-1) (or of T - (2^24-1)).
+		// hi and lo are near each other, T is no longer buffered: lo is delivered before hi, whatever the
+		// Reassembler remembers about T.
+		if which.C01 || which.C02 || which.C10 {
+			var jumps int64
+			for _, T := range []uint32{1000, 5, 0xFFFFFF00, 1 << 31, 0x01000000} {
+				for k1 := uint32(1); k1 <= 3; k1++ {
+					for k2 := uint32(0); k2 <= 3; k2++ {
+						for _, back := range []bool{false, true} {
+							for _, max := range []int{2, 5, 64} {
+								for flush := 0; flush < 3; flush++ {
+									hi, lo := T+reasm.Window+k1, T+reasm.Window-k2
+									if back {
+										hi, lo = T-reasm.Window+k1, T-reasm.Window-k2
+									}
+									h := &reasm.History{MaxInFlight: max, TimeoutNs: 3600e9, Base: T}
+									h.Ops = append(h.Ops, reasm.Op{Kind: reasm.OpPushMsg, Seq: T, Type: 1327},
+										reasm.Op{Kind: reasm.OpPushMsg, Seq: hi, Type: 1300}, reasm.Op{Kind: reasm.OpPushMsg, Seq: lo, Type: 1300})
+									switch flush {
+									case 1: // both completed by their EOE, the higher one first
+										h.Ops = append(h.Ops, reasm.Op{Kind: reasm.OpPushMsg, Seq: hi, Type: reasm.TypeEOE}, reasm.Op{Kind: reasm.OpPushMsg, Seq: lo, Type: reasm.TypeEOE})
+									case 2:
+										h.Ops = append(h.Ops, reasm.Op{Kind: reasm.OpPushMsg, Seq: lo, Type: 1302}, reasm.Op{Kind: reasm.OpMaintain})
+									}
+									h.Ops = append(h.Ops, reasm.Op{Kind: reasm.OpClose})
+									one(h)
+									jumps++
+								}
+							}
+						}
+					}
+				}
+			}
+			c.Add("jump_histories", jumps)
+		}
 		for _, k := range []string{"histories_with_overflow_eviction", "histories_with_duplicate_sequence", "histories_with_late_arrival",
 			"histories_straddling_rollover", "histories_with_orphan_eoe", "histories_with_gap", "deliveries_observed"} {
 			c.Require(k, 1)
